@@ -6,7 +6,7 @@ V = os.path.dirname(os.path.dirname(os.path.abspath(__file__)))
 ALL = ["C%02d" % i for i in range(1, 21)]
 
 # Properties whose slice is built, green on the unchanged tree and integrated by the coordinator.
-READY = ["C17", "C11", "C06", "C15", "C20", "C14", "C19", "C18", "C16", "C09", "C10", "C01", "C02", "C04", "C13", "C07", "C08", "C03"]
+READY = ["C17", "C11", "C06", "C15", "C20", "C14", "C19", "C18", "C16", "C09", "C10", "C01", "C02", "C04", "C13", "C07", "C08", "C03", "C05", "C12"]
 
 COMMON_NOTE = ("Trusted: Coq 8.16.1 kernel + vm_compute (no native_compute, no extraction); the hand-written Gallina model is tied to the "
                "Go code only by the differential correspondence run (Go harness on /repo's working tree, model and spec evaluated inside Coq on the same cases); "
